@@ -335,6 +335,31 @@ def _collect_skip(ck: Checker, rule: str) -> None:
              and any(isinstance(t.ast, ast.Compare) and len(t.ast.ops) == 1 and isinstance(t.ast.ops[0], (ast.In, ast.NotIn)) and norm(t.ast.comparators[0]) == c.func.value.id for t in g.nodes.values() if t.kind == "test")
              and any(d.kind in ("assign", "annassign") and isinstance(d.value, ast.Call) and norm(d.value) == "set()" for d in scope_of(fn).get(c.func.value.id))]
     ck.floor(rule, len(tables), 1, "per-call storage tables in collect()")
+    if not skips and tables:
+        # no remembered skip set: the "already in the collection cache" test (has_node) decides on the spot
+        def first_time_any(t, lab):
+            if t.kind != "test" or not isinstance(t.ast, ast.Compare) or len(t.ast.ops) != 1:
+                return False
+            e = t.ast
+            if norm(e.comparators[0]) not in tables:
+                return False
+            return (isinstance(e.ops[0], ast.NotIn) and lab == "T") or (isinstance(e.ops[0], ast.In) and lab == "F")
+
+        hn = [t for t in g.nodes.values() if t.kind == "test" and t.loops and any(isinstance(x, ast.Call) and is_method_call(x, "has_node") for x in walk_expr(t.ast))]
+        colls = {n.id for n in g.nodes.values() for c in calls_at(n) if call_name(c) == "_collect_from_index"}
+        n_dec = 0
+        for t in hn:
+            pos_lab = "F" if (isinstance(t.ast, ast.UnaryOp) and isinstance(t.ast.op, ast.Not)) else "T"
+            head = t.loops[-1]
+            reach_t = cut(g, [t.id], first_time_any, start=head)
+            skipped = g.reach([d for lab, d in t.succ if lab == pos_lab], skip_node=lambda x: x.id in colls, skip_edge=lambda a, lab, b: lab == "exc")
+            if head in skipped:
+                n_dec += 1
+                ck.require(reach_t is None, rule, fn, t, "a storage is skipped as already collected only when this call has not met it yet",
+                           f"`{norm(t.ast)[:60]}` decides on the spot whether a storage was already collected, with no `key not in <per-call table>` before it: once this very call has started filling that storage the cache has the node, so every later prefix (or index) that resolves to the same storage is left out, its entries are never requested and nothing is reported as failed",
+                           witness=g.fmt_path(reach_t) if reach_t else None, construct=f"{norm(t.ast)[:40]} / first meeting only")
+        if n_dec:
+            return
     ck.floor(rule, len(skips), 1, "skip-set insertions in collect()")
     for n, c in skips:
         k = norm(c.args[0]) if c.args else "?"
